@@ -69,6 +69,8 @@ def _writePairPotentials(eamPotentials, pairPotentials, nr, dr, outfile):
 
 
 def _writeTitle(title, out):
+  # the title is record 1: a line break inside it would push the number of functions out of record 2
+  title = u" ".join(title.splitlines())
   title = u"%s%s" % (title, 100*' ')[:100]
   print(title, file=out)
 
